@@ -43,11 +43,39 @@ func c11ReadAny(v interface{}) {
 	}
 }
 
+//go:noinline
+func c11ReadInts(s []int) (sum int) {
+	for _, x := range s {
+		sum += x
+	}
+	return sum
+}
+
 func c11Buffer() {
 	cool := drawCooldown()
 	var cleaner bigbuff.Cleaner = bigbuff.DefaultCleaner
-	if simrt.Chance(1, 3) {
+	// the offsets slice handed to a user's cleaner / notification callback is the user's to keep: it is
+	// kept here (under a lock, which publishes it) and read by another task while later cleanup cycles run
+	var keptMu sync.Mutex
+	var kept [][]int
+	keep := func(offsets []int) {
+		keptMu.Lock()
+		kept = append(kept, offsets)
+		keptMu.Unlock()
+	}
+	keeps := false
+	switch simrt.Draw(6) {
+	case 0:
 		cleaner = bigbuff.FixedBufferCleaner(simrt.DrawRange(2, 5), 1, nil)
+	case 1:
+		keeps = true
+		cleaner = bigbuff.FixedBufferCleaner(simrt.DrawRange(2, 5), 1, func(n bigbuff.FixedBufferCleanerNotification) { keep(n.Offsets) })
+	case 2:
+		keeps = true
+		cleaner = func(size int, offsets []int) int {
+			keep(offsets)
+			return bigbuff.DefaultCleaner(size, offsets)
+		}
 	}
 	b := newBuffer(cleaner, cool)
 	nProd, nCons := simrt.DrawRange(1, 3), simrt.DrawRange(1, 3)
@@ -145,6 +173,22 @@ func c11Buffer() {
 			_ = c.Rollback()
 			if pl.closeEnd {
 				_ = c.Close()
+			}
+		}()
+	}
+	if keeps {
+		go func() {
+			for i := 0; i < 4; i++ {
+				keptMu.Lock()
+				mine := append([][]int(nil), kept...)
+				keptMu.Unlock()
+				for _, o := range mine {
+					c11ReadInts(o)
+				}
+				if len(mine) > 1 {
+					simrt.Probe("retained_cleaner_offsets_read_after_later_cycle")
+				}
+				<-time.After(time.Microsecond)
 			}
 		}()
 	}
